@@ -186,9 +186,25 @@ def part_pairs(ctx, shard):
                     sb, db, _ = triple(back[1])
                     if db != d1 or rel(sb, s1) > 8 * EPS or not (back[1] == u):
                         ctx.violation(f"C05|law=inverse|{cls}|mode=div-then-mul-not-identity", case, triple(u), triple(back[1]))
+                    elif str(back[1].expr) == str(u.expr) and back[1].registry is u.registry and hash(back[1]) != hash(u):
+                        # the same expression reached by another algebraic route: equal units hash equally (dict / lru keys)
+                        ctx.violation(f"C05|law=hash|{cls}|mode=equal-units-with-equal-expression-hash-differently", case, repr(float(u.base_value)), repr(float(back[1].base_value)))
+            if uv[0] == "ok" and not v.base_offset and not u.base_offset:
+                back = attempt(lambda: uv[1] / v)
+                if back[0] == "ok" and back[1] == u and str(back[1].expr) == str(u.expr) and back[1].registry is u.registry and hash(back[1]) != hash(u):
+                    ctx.violation(f"C05|law=hash|{cls}|mode=equal-units-with-equal-expression-hash-differently", case, repr(float(u.base_value)), repr(float(back[1].base_value)))
         # identity and self-inverse
         one = Unit(registry=u.registry)
         case = {"part": "pair", "u": n1, "v": "1"}
+        # as_coeff_unit denotes the same unit: coefficient x returned unit = u, zero point included
+        r = attempt(lambda: u.as_coeff_unit())
+        if r[0] == "ok":
+            c, cu = r[1]
+            (s0_, d0_, o0_), (s1_, d1_, o1_) = triple(u), triple(cu)
+            if d0_ != d1_ or rel(float(c) * s1_, s0_) > 8 * EPS or rel(o0_, o1_) > 8 * EPS:
+                ctx.violation(f"C05|law=as_coeff_unit|u={uclass(n1)}|offset={int(bool(o0_))}|mode=coefficient-times-unit-differs", case, triple(u), (float(c), triple(cu)))
+        elif r[0] == "error":
+            ctx.violation(f"C05|law=as_coeff_unit|u={uclass(n1)}|mode=escaped-exception:{r[1]}", case, None, None)
         r = attempt(lambda: u * one)
         if r[0] == "ok" and not (r[1] == u and triple(r[1])[:2] == triple(u)[:2]):
             ctx.violation(f"C05|law=identity|u={uclass(n1)}|mode=not-identity", case, triple(u), triple(r[1]))
